@@ -225,6 +225,19 @@ impl Prop for C02 {
         stats.inc("runs");
         stats.inc(&format!("stratum:{}", params.stratum_name()));
         let (j, o) = judge(&case, stats);
+        if index % 40 == 7 {
+            if let Some(o) = &o {
+                if !o.budget_hit {
+                    let (store, root_name, root_canon, _) = graph_job_parts(&case.spec);
+                    let real = crate::xval::real_result(&store.fs, &case.spec.bases, &root_canon, &root_name, case.spec.fmt, &format!("c02-{index}"));
+                    stats.inc("probe:stub_validated_against_real");
+                    if real != o.res {
+                        stats.inc("xval_mismatch");
+                        stats.sample(8, || json!({"xval_mismatch": true, "index": index, "sim": o.res.short(), "real": real.short()}));
+                    }
+                }
+            }
+        }
         match &j {
             Judgement::Pass => stats.inc("judged"),
             Judgement::Fail { .. } => stats.inc("judged"),
@@ -275,7 +288,7 @@ impl Prop for C02 {
         crate::core::world_a_extra(stats)
     }
     fn rule(&self) -> String {
-        "One run = one generated load graph (1-4 files, sometimes 5-8; edges drawn from @use/@forward/@import/meta.load-css; urls spelled canonically or with ./, x/../ and ../d/ noise; 0-2 load paths; wrappers) compiled by the real library through SimLoader, judged against reachability of a cycle over canonical file identity; strata = file count x kind subset x spelling class x cyclic, hit round-robin. A run is non-trivial when the graph has at least one load; distinct = distinct digests of (loader event history, result).".into()
+        "One run = one generated load graph (1-4 files, sometimes 5-8; edges drawn from @use/@forward/@import/meta.load-css; urls spelled canonically or with ./, x/../ and ../d/ noise; 0-2 load paths; wrappers) compiled by the real library through SimLoader, judged against reachability of a cycle over canonical file identity; strata = file count x kind subset x spelling class x cyclic, hit round-robin. A run is non-trivial when the graph has at least one load; distinct = distinct digests of (loader event history, result). Every 40th run is also materialised on the real file system and compiled through the real FsLoader; the result must equal the simulated one (probe stub_validated_against_real).".into()
     }
     fn assumptions(&self) -> Vec<String> {
         vec![
@@ -291,7 +304,13 @@ impl Prop for C02 {
         if runs > 0 && judged * 10 < runs * 9 {
             errs.push(format!("only {judged} of {runs} runs were judged (<90%)"));
         }
-        for p in ["probe:model_loop", "probe:model_acyclic", "probe:alias_spelling_used", "probe:file_loaded_many_times"] {
+        if stats.c.get("xval_mismatch") > 0 {
+            errs.push(format!(
+                "{} configurations gave different results through SimLoader and through the real FsLoader (the stub misrepresents the file system)",
+                stats.c.get("xval_mismatch")
+            ));
+        }
+        for p in ["probe:model_loop", "probe:model_acyclic", "probe:alias_spelling_used", "probe:file_loaded_many_times", "probe:stub_validated_against_real"] {
             if runs >= 1000 && stats.c.get(p) == 0 {
                 errs.push(format!("probe {p} stuck at zero"));
             }
